@@ -26,6 +26,7 @@ CONSTANTS
     MaxIx,           \* removal index sequences have length 1..MaxIx
     MaxDepth,        \* number of operations per behaviour
     Valueless,       \* TRUE: AddData may create a child without values
+    CellMask,        \* TRUE: cell objects also offer copy(cell_mask=...)
     Deviations       \* {} = the specification ; a subset of AsBuilt = geoh5py as built (negative controls)
 
 VARIABLES obj, expect, cexpect, ccoords, cached, depth, last
@@ -151,6 +152,17 @@ MaskedCopy(S, mask, D) ==
                                IF ~S.data[p].has THEN S.data[p]
                                ELSE [S.data[p] EXCEPT !.vals = DeleteIdx(@, IF S.data[p].assoc = "VERTEX" THEN R ELSE CR)]]])
 
+\* cell_object.py:148-231 copy(cell_mask=...) without a vertex mask: every vertex is kept, the cells and
+\* the CELL data are sub-sampled (:181-184, :206-211), VERTEX data are copied whole (child_mask = mask = None)
+CellMaskedCopy(S, cmask, D) ==
+    IF Len(cmask) # Len(S.cells) THEN Res("refused", S)      \* numpy refuses a boolean index of another length
+    ELSE
+    LET CR == {c \in 0..(Len(S.cells)-1) : ~cmask[c+1]} IN
+    Res("ok", [S EXCEPT !.cells = DeleteIdx(@, CR), !.cids = DeleteIdx(@, CR),
+                        !.data = [p \in DOMAIN S.data |->
+                                    IF S.data[p].has /\ S.data[p].assoc = "CELL"
+                                    THEN [S.data[p] EXCEPT !.vals = DeleteIdx(@, CR)] ELSE S.data[p]]])
+
 \* close the workspace, open the file again, read everything back.  As built h5_reader.fetch_values
 \* indexes values[0] and raises on a zero-length array (deviation EmptyValuesUnreadable).
 Reopen(S, D) ==
@@ -178,6 +190,7 @@ Acts(S) ==
   \cup {[Act("RemoveVertices") EXCEPT !.ix = ix] : ix \in IxSeqs(Len(S.verts))}
   \cup (IF Arity = 0 THEN {} ELSE {[Act("RemoveCells") EXCEPT !.ix = ix] : ix \in IxSeqs(Len(S.cells))})
   \cup {[Act("MaskedCopy") EXCEPT !.mask = m] : m \in Masks(Len(S.verts))}
+  \cup (IF Arity = 0 \/ ~CellMask THEN {} ELSE {[Act("CellMaskedCopy") EXCEPT !.mask = m] : m \in Masks(Len(S.cells))})
   \cup (IF cached THEN {Act("Reopen")} ELSE {})
 
 Step(S, a, D) ==
@@ -186,6 +199,7 @@ Step(S, a, D) ==
       [] a.act = "RemoveVertices" -> RemoveVertices(S, a.ix, D)
       [] a.act = "RemoveCells"    -> RemoveCells(S, a.ix, D)
       [] a.act = "MaskedCopy"     -> MaskedCopy(S, a.mask, D)
+      [] a.act = "CellMaskedCopy" -> CellMaskedCopy(S, a.mask, D)
       [] a.act = "Reopen"         -> Reopen(S, D)
 
 \* ---------------------------------------------------------------- what the harness sees
